@@ -10,14 +10,21 @@ point at *every stream operation* (poll_ready / start_send / poll_flush / read) 
    endpoint, Clients::shutdown, displacement, keep-alive pong timeout): OnConnectOnce, AtMostOneDisconnect,
    DisconnectOnlyAfterAllow (same id), GuardConservation, DeniedNeverRegistered, IdsDistinct,
    ExactlyOnceAtEnd, and under fairness AdmittedEventuallyDisconnected.
+   Two fault classes at every stream operation of admission and service: the operation returns an
+   error (IoFail), or the stream adapter *panics* inside it (IoPanic): the task that polled the stream
+   unwinds (accept task / connection actor), the guard is dropped by the unwinding wherever it lives,
+   Clients::unregister does not run (stale registry entry).
 2. Anti-vacuity: GuardLate = TRUE (guard constructed after the confirmation write) is refuted
-   (ExactlyOnceAtEnd: fault while writing the confirmation -> admitted, never disconnected).
+   (ExactlyOnceAtEnd: fault while writing the confirmation -> admitted, never disconnected), and so is
+   SilentUnwind = TRUE (a guard whose Drop does nothing while the thread is panicking).
 3. Binding, fault layer (mode A): TLC emits every single-connection behaviour with <= 1 fault
    (thorough: <= 2): the path, decision, service steps, cause and *which stream operation fails*.
    vh_relayauth c07 runs the same admission sequence through the public API (serverside ->
    ClientRequest::new -> authorize_with -> Config::new -> Clients::register) over an in-memory
-   stream that fails exactly that operation, lets the real actor serve it, applies the cause, and
-   reports the recording AccessControl's log and the stream-operation log.
+   stream that fails exactly that operation - by returning an error or by panicking, as the scenario
+   says (panics unwind the spawned accept / actor task; the panic hook is silenced) - lets the real
+   actor serve it, applies the cause, and reports the recording AccessControl's log and the
+   stream-operation log.
 4. Binding, end-to-end layer: fault-free two-connection behaviours (seeded sample; environment acts
    at rest) against a real `Server::spawn` on 127.0.0.1 with real clients, so that the real
    `Inner::accept` glue, websocket framing and TCP teardown are on the path.
@@ -31,6 +38,12 @@ drift (exit 2), not a violation.
 Mutation self-test (2026-09-22): in `authorize_with`, `OnDisconnectGuard::for_access_control` moved
 after `self.accept(io).await?` -> VIOLATION kind=admitted_without_disconnect for the four fault
 points of the confirmation write; undone -> exit 0.
+
+Independent breaking change seeded/_incoming/C07/patch2.diff (`OnDisconnectGuard::drop` returns early
+when `std::thread::panicking()`): not caught before the panic fault class existed (no scenario made
+a task holding the guard panic); with it (2026-09-22, private worktree via VERIF_REPO) -> VIOLATION
+kind=admitted_without_disconnect fault_kind=panic at every panic point with the guard alive
+(owner authorize / actor); unchanged tree -> exit 0.
 """
 import json
 import random
@@ -43,7 +56,8 @@ META = {
     "technique": "TLA+ spec RelayAdmission (guard ownership, a fault point after every stream operation) checked by TLC; "
                  "every single-fault behaviour replayed with a fault-injecting stream and a recording AccessControl "
                  "(mode A); fault-free behaviours replayed end-to-end against Server::spawn",
-    "text": "TLC enumerates every failure point of the admission exchange and of the connection actor's reads, writes and "
+    "text": "TLC enumerates every failure point (an I/O error, or a panic of the stream adapter that unwinds the polling task) "
+            "of the admission exchange and of the connection actor's reads, writes and "
             "flushes, every allow/deny decision and every way a connection ends (client close, error, displacement, "
             "administrative disconnect by id or endpoint, shutdown), for two interleaved connections, and checks that "
             "the policy sees exactly one disconnect with the admission's connection id per admitted connection, none for "
@@ -51,7 +65,8 @@ META = {
             "with exactly that stream operation failing; fault-free multi-connection behaviours run against a real server.",
     "note": "Faults inside hyper's upgrade path precede admission and are out of scope.  The fault layer repeats the glue of "
             "Inner::accept through the public API (the e2e layer exercises the real glue).  \"Errors\" = a failing stream "
-            "operation or a TCP connection dropped without websocket close.  Exact equality of the stream-operation "
+            "operation, a stream adapter that panics inside an operation (fault layer only), or a TCP connection dropped "
+            "without websocket close.  Exact equality of the stream-operation "
             "sequence with the model is required only as a drift check.",
     "design_ref": "§6 C07",
 }
@@ -65,11 +80,11 @@ def with_fault(conn):
     seen = {}
     fault = None
     for s in steps:
-        if s["ev"] != "io":
+        if s["ev"] not in ("io", "panic"):
             continue
         seen[s["op"]] = seen.get(s["op"], 0) + 1
         if not s["ok"]:
-            fault = {"kind": s["op"], "nth": seen[s["op"]]}
+            fault = {"kind": s["op"], "nth": seen[s["op"]], "panic": s["ev"] == "panic"}
     return {"steps": steps, "fault": fault, "exp": {k: conn[k] for k in ("cause", "fault", "owner_at_fault", "nconn", "allowed",
                                                                          "ndisc", "registered")}}
 
@@ -77,9 +92,9 @@ def with_fault(conn):
 def describe(case):
     evs = []
     for s in case["steps"]:
-        if s["ev"] == "io":
+        if s["ev"] in ("io", "panic"):
             if not s["ok"]:
-                evs.append("FAIL %s:%s" % (s["f"], s["op"]))
+                evs.append("%s %s:%s" % ("PANIC" if s["ev"] == "panic" else "FAIL", s["f"], s["op"]))
         elif s["ev"] in ("start", "on_connect"):
             evs.append("%s=%s" % (s["ev"], s["f"]))
         elif s["ev"] == "verify":
@@ -126,11 +141,12 @@ def judge_fault(ctx, c, o, drift, ids):
             bad = bad or ("connection_id_reused", "connection id %s was handed out twice" % cid)
         ids.add(cid)
     if bad:
-        ctx.report({"kind": bad[0], "layer": "fault", "fault": e["fault"], "owner": e["owner_at_fault"], "cause": e["cause"]},
+        ctx.report({"kind": bad[0], "layer": "fault", "fault": e["fault"], "owner": e["owner_at_fault"], "cause": e["cause"],
+                    "fault_kind": "-" if not c["fault"] else ("panic" if c["fault"].get("panic") else "error")},
                    "%s in scenario: %s (access control saw %s)" % (bad[1], describe(c), o["ac"]), c)
         return
     # conformance with the model beyond the property: drift
-    exp_ops = [(s["op"], s["ok"]) for s in c["steps"] if s["ev"] == "io"]
+    exp_ops = [(s["op"], s["ok"]) for s in c["steps"] if s["ev"] in ("io", "panic")]
     got_ops = [(x["kind"], not x["failed"]) for x in o["ops"]]
     got_allowed = connects[0].split(":")[1] if connects else "-"
     ndisc = len([a for a in o["ac"] if a.startswith("disconnect:")])
@@ -217,12 +233,13 @@ def run(ctx):
             judge_fault(ctx, rep, run_fault(ctx, [rep], "c07-replay")[0], drift, set())
         return
     acts = ["IoStep", "IoFail", "Start", "ReadAuth", "Verify", "NewRequest", "OnConnect", "MakeGuard", "RetGuard",
-            "BuildConfig", "Register", "Unwind", "SvcPing", "DoPong", "SvcDeliver", "SvcTick", "SvcPongBack", "PongTimeout",
+            "BuildConfig", "Register", "Unwind", "IoPanic", "TaskUnwind", "SvcPing", "DoPong", "SvcDeliver", "SvcTick", "SvcPongBack", "PongTimeout",
             "ActorMsg", "LoopFlush", "Displace", "Close", "Disconnect", "Shutdown", "CancelObserved", "Exit", "DropGuard"]
     # 1. fault enumeration on the model: two connections of the same endpoint (safety), then liveness
     ctx.tlc("relay", "MC_RelayAdmission", cfg="RelayAdmission.cfg", mode="mc", workers=ctx.pick(4, 8), timeout=3000, heap="8g",
             constants={"Conns": '{"c1", "c2"}', "MaxFaults": ctx.pick(1, 2), "GuardLate": "FALSE", "Script": '"full"',
-                       "Paths": ctx.pick('{"challenge"}', '{"km", "challenge"}'), "Proofs": "{TRUE, FALSE}"},
+                       "Paths": ctx.pick('{"challenge"}', '{"km", "challenge"}'), "Proofs": "{TRUE, FALSE}",
+                       "Panics": "TRUE", "SilentUnwind": "FALSE"},
             require_actions=acts)
     ctx.tlc("relay", "MC_RelayAdmission", cfg="RelayAdmission_live.cfg", mode="mc", workers=4, timeout=3000, heap="8g",
             constants={"Conns": ctx.pick('{"c1"}', '{"c1", "c2"}'), "MaxFaults": 1, "Script": ctx.pick('"full"', '"ping"')},
@@ -230,14 +247,26 @@ def run(ctx):
     # 2. anti-vacuity: the late guard is refuted
     ctx.tlc("relay", "MC_RelayAdmission", cfg="RelayAdmission_late.cfg", mode="mc", workers=2, timeout=1200,
             constants={"Conns": '{"c1"}', "MaxFaults": 1, "GuardLate": "TRUE", "Script": '"none"', "Paths": '{"km", "challenge"}',
-                       "Proofs": "{TRUE, FALSE}"},
+                       "Proofs": "{TRUE, FALSE}", "Panics": "FALSE", "SilentUnwind": "FALSE"},
+            expect_violation="ExactlyOnceAtEnd")
+    # ... and so is a guard that stays silent while its task unwinds from a panicking stream adapter
+    ctx.tlc("relay", "MC_RelayAdmission", cfg="RelayAdmission_late.cfg", mode="mc", workers=2, timeout=1200,
+            constants={"Conns": '{"c1"}', "MaxFaults": 1, "GuardLate": "FALSE", "Script": '"ping"', "Paths": '{"km", "challenge"}',
+                       "Proofs": "{TRUE, FALSE}", "Panics": "TRUE", "SilentUnwind": "TRUE"},
             expect_violation="ExactlyOnceAtEnd")
     # 3. fault layer
     res = ctx.tlc("relay", "MC_RelayAdmission", cfg="RelayAdmission_gen.cfg", mode="gen", timeout=3000,
                   constants={"MaxFaults": 1}, require_actions=acts)
-    cases = [with_fault(r["conns"]["c1"]) for r in res.replays]
-    # two faults in one behaviour: the second is unreachable after the first broke the stream; keep single-fault plans
-    cases = [c for c in cases if len([s for s in c["steps"] if s["ev"] == "io" and not s["ok"]]) <= 1]
+    cases, seen_steps = [], set()
+    for r in res.replays:
+        c = with_fault(r["conns"]["c1"])
+        key = json.dumps(c["steps"], sort_keys=True)
+        # the same connection history can be printed twice (a Shutdown after the connection is over only changes
+        # the global order); two faults in one behaviour cannot happen: the first one breaks the stream
+        if key in seen_steps or len([s for s in c["steps"] if s["ev"] in ("io", "panic") and not s["ok"]]) > 1:
+            continue
+        seen_steps.add(key)
+        cases.append(c)
     if not cases:
         raise ToolError("TLC generated no fault scenarios")
     obs = run_fault(ctx, cases, "c07")
@@ -247,10 +276,13 @@ def run(ctx):
         e = c["exp"]
         ctx.count([describe(c), c["fault"]], nontrivial=e["nconn"] > 0)
         if e["fault"] != "-":
-            owners[e["owner_at_fault"]] = owners.get(e["owner_at_fault"], 0) + 1
+            k = ("panic:" if c["fault"]["panic"] else "error:") + e["owner_at_fault"]
+            owners[k] = owners.get(k, 0) + 1
         judge_fault(ctx, c, o, drift, ids)
         n = len(ctx.cov["samples"])
-        if n < 3 and ((n == 0 and e["fault"] == "confirm") or (n == 1 and e["fault"] == "pong") or (n == 2 and e["cause"] == "displaced" and e["fault"] == "-")):
+        isp = bool(c["fault"]) and c["fault"]["panic"]
+        if n < 3 and ((n == 0 and e["fault"] == "confirm" and not isp) or (n == 1 and e["fault"] == "pong" and isp)
+                      or (n == 2 and e["cause"] == "displaced" and e["fault"] == "-")):
             ctx.sample({"layer": "fault", "scenario": describe(c), "fault_plan": c["fault"], "guard_owner_at_fault": e["owner_at_fault"],
                         "model": {"allowed": e["allowed"], "disconnects": e["ndisc"], "registered": e["registered"]},
                         "access_control_saw": o["ac"], "stream_ops": len(o["ops"])})
